@@ -148,6 +148,9 @@ def check_superdict(ck, col, kind, label, d, crys, chem, super_n, sd, warns, spe
         for name, jn in (("omega0", d.om0_jn), ("omega1", d.om1_jn), ("omega2", d.om2_jn)):
             for jl, tl in zip(jn, d.tags[name]): jumpdx[tl[0]] = (-1, jl[0][1])
     supinv = np.linalg.inv(anysup.lattice)
+    if kind == "vacancy":
+        wy = {i: k for k, w_ in enumerate(d.sitelist) for i in w_}
+        stats["omega0_cross_wyckoff"] += sum(1 for jl in d.om0_jn if wy[jl[0][0][0]] != wy[jl[0][0][1]])
     for tag, (s0, s1) in trans.items():
         stats["transitions"] += 1
         o0, o1 = state(s0)[0], state(s1)[0]
@@ -194,9 +197,19 @@ def check_superdict(ck, col, kind, label, d, crys, chem, super_n, sd, warns, spe
             continue
         for m, s, w in zip(maps, (s0, s1), ("initial", "final")):
             if m is None:
+                # acceptable only if NO state supercell of the dictionary maps onto this endpoint: scan all states x all of G
                 stats["mappings_none"] += 1
+                so = np.array(state(s)[0])
                 for stag, ssup in states.items():
                     c_none.append("nomapb Gall %s %s" % (nm(ssup), nm(s))); m_none.append(dict(rep, which=w, state_tag=stag))
+                    ao = np.array(state(ssup)[0])
+                    for idx in Gidx:
+                        gocc = np.empty_like(ao); gocc[np.array(idx)] = ao
+                        if np.array_equal(gocc, so):
+                            col.violation("c29-mapping-missing", "%s %s: %s endpoint of %s is recorded without mapping (None) although state %s "
+                                          "maps onto it (site map %s...)" % (label, super_n.tolist(), w, tag, stag, list(idx[:8])),
+                                          dict(rep, which=w, state_tag=stag, indexmap=list(idx)))
+                            break
             else:
                 stats["mappings"] += 1
                 stag, g, mapping = m
@@ -265,7 +278,8 @@ def supercell_matrices(rng, crys, n):
 
 def run(ck):
     ck.rule = ("3-D crystal pool x percolating jump network x supercell matrices (n*I for n=1..3, anisotropic diagonal, random "
-               "symmetry-breaking; up to 60 sites) for Interstitial and VacancyMediated (Nthermo=1) calculators; an evaluation = one "
+               "symmetry-breaking; up to 60 sites) for Interstitial and VacancyMediated (Nthermo=1) calculators, always including vacancy "
+               "calculators whose species occupies several Wyckoff positions with jumps between inequivalent positions; an evaluation = one "
                "state or transition of one supercell dictionary; distinct = distinct (crystal, supercell, tag); all are non-trivial")
     ck.trusted += ["harness/c29.py, sclib.py: tag parsing, nearest-site identification of the named positions (tolerance 2e-3, unique), "
                    "reference occupation built from atomindices, exact rational half-cell coordinates", "displacement tolerance 1e-6"]
@@ -274,7 +288,7 @@ def run(ck):
     from onsager import OnsagerCalc, crystal
     col = Collector(ck)
     stats = dict(states=0, transitions=0, mappings=0, mappings_none=0, states_folded=0, transitions_folded=0, warning_cells=0,
-                 cells_too_small=0, skipped_irrational=0, dictionaries=0)
+                 cells_too_small=0, skipped_irrational=0, dictionaries=0, omega0_cross_wyckoff=0)
     skipped = {"nonpercolating": 0, "construct-failed": 0, "too-many-states": 0}
     jobs = []
     ncalc = ck.n(3, 18)
@@ -293,6 +307,37 @@ def run(ck):
             sd = d.makesupercells(super_n)
         stats["dictionaries"] += 1
         jobs.append(check_superdict(ck, col, kind, name, d, crys, chem, super_n, sd, list(warns), spec, stats))
+    # vacancy-mediated calculators whose diffusing species occupies several Wyckoff positions, with a network that contains
+    # jumps between inequivalent positions (omega0 endpoints then belong to different lone-vacancy states)
+    def A(*x): return np.array(x, dtype=float)
+    multi = [("tetragonal M(0,0,0)+M(1/2,1/2,+-0.3)", crystal.Crystal(np.diag([1., 1., 1.4]), [A(0, 0, 0), A(.5, .5, .3), A(.5, .5, -.3)]), 0),
+             ("re3",) + gen.named("re3"), ("polar2w",) + gen.named("polar2w"),
+             ("cubic corner+edge centres+body centre", crystal.Crystal(np.eye(3), [A(0, 0, 0), A(.5, 0, 0), A(0, .5, 0), A(0, 0, .5), A(.5, .5, .5)]), 0)]
+    if ck.quick: multi = multi[:3]
+    for label, crys, chem in multi:
+        if not all(isinstance(x, str) for x in crys.chemistry):
+            crys = crystal.Crystal(crys.lattice, crys.basis, chemistry=[str(x) for x in crys.chemistry])
+        sl = crys.sitelist(chem)
+        wy = {i: k for k, w_ in enumerate(sl) for i in w_}
+        net = None
+        for r in gen.shells(crys, chem)[:6]:
+            jn = crys.jumpnetwork(chem, r + 1e-4)
+            if not any(wy[jl[0][0][0]] != wy[jl[0][0][1]] for jl in jn) or sum(len(t) for t in jn) > 60: continue
+            D = gen.exact_unitcell_D(len(crys.basis[chem]), jn, np.ones(len(crys.basis[chem])) / len(crys.basis[chem]), [[1.0] * len(t) for t in jn], 3)
+            if np.linalg.eigvalsh(0.5 * (D + D.T)).min() > 1e-6: net = (r + 1e-4, jn); break
+        if net is None: skipped["nonpercolating"] += 1; continue
+        cut, jn = net
+        d = OnsagerCalc.VacancyMediated(crys, chem, sl, jn, 1)
+        for super_n in ([2 * np.eye(3, dtype=int)] if ck.quick else [2 * np.eye(3, dtype=int), np.diag([2, 2, 3]) if crys.N * 12 <= 60 else np.diag([1, 2, 2])]):
+            spec = dict(label=label, lattice=crys.lattice.tolist(), basis=[[u.tolist() for u in b] for b in crys.basis], chem=chem,
+                        cutoff=cut, supercell=super_n.tolist())
+            with warnings.catch_warnings(record=True) as warns:
+                warnings.simplefilter("always")
+                sd = d.makesupercells(super_n)
+            stats["dictionaries"] += 1
+            jobs.append(check_superdict(ck, col, "vacancy", label, d, crys, chem, super_n, sd, list(warns), spec, stats))
+    if stats["omega0_cross_wyckoff"] == 0:
+        raise RuntimeError("generator produced no vacancy jump between inequivalent Wyckoff positions")
     for kind in ("interstitial", "vacancy"):
         made = 0
         names = ["hcp-oct-tet", "fcc-oct-tet", "bcc-tet", "sc", "b2-1", "polar2w", "diamond"] if kind == "interstitial" else \
@@ -376,7 +421,7 @@ def replay(ck, path):
     super_n = np.array(c["supercell"], dtype=int)
     col = Collector(ck)
     stats = dict(states=0, transitions=0, mappings=0, mappings_none=0, states_folded=0, transitions_folded=0, warning_cells=0,
-                 cells_too_small=0, skipped_irrational=0, dictionaries=0)
+                 cells_too_small=0, skipped_irrational=0, dictionaries=0, omega0_cross_wyckoff=0)
     with warnings.catch_warnings(record=True) as warns:
         warnings.simplefilter("always")
         try:
